@@ -246,14 +246,14 @@ def variant(rng, case):
     c = copy.deepcopy(case)
     n = c["n"]
     r = rng.random()
-    if r < 0.3:
+    if r < 0.25:
         c["mcd"] = {"dw": rng.choice(["1e-9", "0.3e-9", "2e-9"]), "por": rng.choice(["0.3", "1", "0.1"])}
         c["variant"] = "mcd"
-    elif r < 0.5:
+    elif r < 0.4:
         c["mcd"] = {"dw": "1e-9", "por": rng.choice(["0.3", "1"])}
         c["implicit"] = {"maxmixf": rng.choice(["1", "3", "10"])}
         c["variant"] = "implicit"
-    elif r < 0.8:
+    elif r < 0.65:
         # one stagnant layer with exchange factor: stagnant solutions n+2 .. 2n+1. The engine's mobile/immobile
         # exchange conserves mass when the water masses are in the ratio of the porosities: mobile water 1 kg,
         # immobile water thim/thm kg.
@@ -267,9 +267,34 @@ def variant(rng, case):
                 so["water"] = wim
                 c["sols"][str(i + 1 + n)] = so
         c["variant"] = "stagnant"
+    elif r < 0.8:
+        # stagnant cells coupled by explicit MIX definitions (no exchange factor): pairwise, mass-conserving fractions
+        # mobile i: {i: 1-a, k: b}, immobile k: {i: a, k: 1-b}; concentrations stay convex when a*W_m = b*W_im
+        mix = {}
+        for k in c["sols"]:
+            c["sols"][k]["water"] = "1"
+        for i in range(1, n + 1):
+            if rng.random() < 0.8:
+                a = Fraction(rng.choice(["0.01", "0.05", "0.1", "0.2", "0.25", "0.4"]))
+                if rng.random() < 0.7:
+                    b, wim = a, "1"
+                else:
+                    b, wim = 2 * a, "0.5"
+                mix[str(i)] = [_fracdec(1 - a), _fracdec(b), _fracdec(1 - b), _fracdec(a)]
+                so = solution(rng, 1, True, False)
+                so["water"] = wim
+                c["sols"][str(i + 1 + n)] = so
+        c["stag"] = {"n": 1, "mix": mix}
+        c["variant"] = "stagnant_mix"
     else:
         c["solids"] = rng.choice(["exchange", "calcite"])
         c["variant"] = c["solids"]
+        if rng.random() < 0.4:
+            # ADVECTION keyword with reactive solids
+            c["kind"] = "advection"
+            c["variant"] = "advection_" + c["solids"]
+            c["sols"] = {k: v for k, v in c["sols"].items() if int(k) <= n}
+            c["sols"].setdefault("0", solution(rng, 1, True, False))
     return c
 
 
@@ -297,6 +322,11 @@ def render(case, headings=None):
     if case.get("solids") == "calcite":
         L.append("EQUILIBRIUM_PHASES 1-%d" % n)
         L.append(" Calcite 0 0.001")
+    if case.get("stag") and "mix" in case["stag"]:
+        for i in sorted(case["stag"]["mix"], key=int):
+            ms, mf, ims, imf = case["stag"]["mix"][i]
+            k = int(i) + 1 + n
+            L += ["MIX %s" % i, " %s %s" % (i, ms), " %d %s" % (k, mf), "MIX %d" % k, " %s %s" % (i, imf), " %d %s" % (k, ims)]
     L.append("SELECTED_OUTPUT 1")
     L.append(" -reset false")
     L.append(" -high_precision true")
@@ -347,7 +377,10 @@ def render(case, headings=None):
     L.append(" -warnings true")
     if case.get("stag"):
         st = case["stag"]
-        L.append(" -stagnant %d %s %s %s" % (st["n"], st["exch"], st["thm"], st["thim"]))
+        if "exch" in st:
+            L.append(" -stagnant %d %s %s %s" % (st["n"], st["exch"], st["thm"], st["thim"]))
+        else:
+            L.append(" -stagnant %d" % st["n"])
     if case.get("mcd"):
         L.append(" -multi_d true %s %s 0.0 1.0" % (case["mcd"]["dw"], case["mcd"]["por"]))
     if case.get("implicit"):
@@ -375,7 +408,17 @@ def corpus():
     # [2] known finding `speciation-residual-accumulates`: 650 mixruns in one shift of an explicit multi_d column with
     #     flux boundaries: Ca inventory +1.4e-9 relative (no negative-concentration balancing involved)
     third = {"kind": "transport", "n": 4, "shifts": 1, "sols": {"1": {"water": "1", "pH": "7", "el": {"Mg": "0.34339", "Br": "0.618102", "Cl": "0.068678"}}, "2": {"water": "1", "pH": "7", "el": {"Mg": "5.3", "Br": "8.48", "Cl": "2.12"}}, "3": {"water": "1", "pH": "7", "el": {"Mg": "0.34339", "Br": "0.618102", "Cl": "0.068678"}}, "4": {"water": "1", "pH": "7", "el": {"Mg": "0.34339", "Br": "0.618102", "Cl": "0.068678"}}, "0": {"water": "1", "pH": "7", "el": {"Li": "2.2448e0", "Br": "0.22448", "Cl": "2.02032"}}, "5": {"water": "1", "pH": "8", "el": {"Na": "3.41e-1", "Mg": "0.992", "Ca": "0.17463", "Br": "2.139408", "Cl": "0.534852"}}}, "flow": "back", "bc": [3, 3], "lengths": ["1.27e-2", "1.27e-2", "1.27e-2", "1.27e-2"], "disps": ["0.057", "0", "0", "0.0079"], "diffc": "0", "timest": "7.5e6", "correct_disp": True, "stag": None, "mcd": {"dw": "1e-9", "por": "1"}, "implicit": None, "solids": None, "variant": "mcd"}
-    return [base, second, third]
+    # [3] known finding `implicit-mcd-closed-inventory-drift`: closed implicit multicomponent diffusion; the negative-mole
+    #     guard of diffuse_implicit creates ~1e-13 mol per cell of elements absent from a cell and lets inventories drift
+    def _s(el):
+        return {"water": "1", "pH": "7", "el": el}
+    fourth = {"kind": "transport", "n": 6, "shifts": 1, "flow": "diffusion_only", "bc": [2, 2], "lengths": ["1"],
+              "disps": ["0"], "diffc": "1.7e-11", "timest": "3.9e3", "correct_disp": False, "stag": None,
+              "mcd": {"dw": "1e-9", "por": "0.3"}, "implicit": {"maxmixf": "1"}, "solids": None, "variant": "implicit",
+              "sols": {"1": _s({"Ca": "0.05", "Cl": "0.1"}), "2": _s({"Ca": "0.02", "Cl": "0.04"}),
+                       "3": _s({"K": "0.3", "Br": "0.3"}), "4": _s({"Ca": "0.07", "Cl": "0.14"}),
+                       "5": _s({"Li": "0.1", "Cl": "0.1"}), "6": _s({"Ca": "0.0091", "Cl": "0.0182"})}}
+    return [base, second, third, fourth]
 
 
 HEADS = ["cell", "step", "state", "water", "H", "O", "cb"] + ["m_" + e for e in ELEMENTS] + ["c_" + e for e in ELEMENTS]
